@@ -6,11 +6,13 @@ import (
 	"context"
 	"crypto/sha256"
 	"fmt"
+	"math/big"
 	"sort"
 	"strings"
 
 	"github.com/tokenized/pkg/bitcoin"
 	"github.com/tokenized/pkg/storage"
+	"github.com/tokenized/pkg/wire"
 )
 
 // This file only exists under the "verif" build tag. It exposes internal state and parameterised
@@ -122,4 +124,20 @@ func (repo *Repository) VerifSetSplits(splits Splits, required *Split) {
 // VerifStore returns the storage the repository was created with.
 func (repo *Repository) VerifStore() storage.Storage {
 	return repo.store
+}
+
+// VerifMockRooted starts the repository, like the MockLatest test helper, from a single header at
+// the given height, but as a genesis-rooted main branch whose lower headers have been pruned from
+// memory - the shape a long running node has - so that Clean and Save (consolidation) can run on it.
+func (repo *Repository) VerifMockRooted(header *wire.BlockHeader, height int, work *big.Int) {
+	repo.Lock()
+	defer repo.Unlock()
+
+	branch, _ := NewBranch(nil, -1, header)
+	branch.offset = height + 1
+	branch.headers[0].AccumulatedWork = work
+	branch.heightsMap = map[bitcoin.Hash32]int{*header.BlockHash(): height}
+	repo.branches = Branches{branch}
+	repo.longest = branch
+	repo.heights[*header.BlockHash()] = height
 }
